@@ -15,7 +15,7 @@ from oracles.smc_oracles import check_evidence
 
 LEVEL = "exploration"
 RULE = ("complete choice tree (no deviation bound) of the real SMC loop with N in {2,3}: initial population and population "
-        "after each of the first 2 iterations chosen from {flat, spread 3, spread 1e3}, every resampling index tuple with "
+        "after each of the first 2 iterations chosen from {flat, spread 3, spread 1e3} (the initial one also from a population with a zero-likelihood particle), every resampling index tuple with "
         "non-zero probability; schedules: fixed n=1,2,3, adaptive (eff 0.5/0.9), adaptive+min_step; each execution is paired "
         "with a run sharing all choices that adds n_final_samples or a checkpoint callback (every 1 / 2); continuous 2-D runs are interrupted at every user-callable call and resumed from the last checkpoint (pickled bytes and the live dictionary) and must report the same ratios and evidence. "
         "non-trivial = at least one step whose incremental weights are not all equal")
